@@ -537,6 +537,15 @@ Definition wft (t : list ch) : Prop := forall c, In c t -> wfc c.
 Definition ascii_bytes (s : list N) : bool := forallb (fun b => b <? 128) s.
 Definition onbytes (f : list ch -> list ch) (s : list N) : list N := encode (f (decode s)).
 
+(* L010: what the rule names.  r is a maximal run of two or more code spaces of the classified line l, after pre *)
+Definition cspace_run (l pre r post : list cc) : Prop :=
+  l = pre ++ r ++ post /\ forallb cspace r = true /\ (2 <= length r)%nat /\
+  match lastc pre with Some q => cspace q = false | None => True end /\
+  match post with d :: _ => cspace d = false | [] => True end.
+(* strings.TrimLeft(line[:col], " \t") == "": the first col bytes of the line are spaces and tabs (indentation) *)
+Definition indent_bytes (l : list cc) (col : nat) : bool :=
+  forallb (fun b => (b =? 32) || (b =? 9)) (firstn col (encode (chars l))).
+
 (* L007: what the rule names.  The scanner is inside a word after a code character that starts a word, or continues one *)
 Section SpecWords.
   Variables is_letter is_digit : N -> bool.
